@@ -171,7 +171,6 @@ impl Method for TEMA {
 //@extract src/methods/ema.rs impl[Method for TEMA]::next
 //@end
 }
-//@export-end
 
 // ------------------------------------------------------------------ RMA: alpha = 1/length
 //@extract src/methods/rma.rs struct:RMA keepderive
@@ -251,6 +250,12 @@ pub open spec fn tsi_parts(pre: &TSI, x: &ValueType, post: &TSI, out: &ValueType
 	&&& (post.ema22.value@ <= 0real ==> out@ == 0real)
 }
 impl TSI {
+// the inherent three-argument constructor (renamed: Verus resolves `new` in contracts to the trait fn)
+//@extract src/methods/tsi.rs impl[TSI]::new pub rename=new3
+	ensures r is Ok ==> r->Ok_0.inv() && TSI::fresh((short_period, long_period), value, &r->Ok_0),
+		(r is Ok) == (short_period != 0 && long_period != 0),
+//@replace Method::new((short_period, long_period), value) ==> <TSI as Method>::new((short_period, long_period), value)
+//@end
 //@extract src/methods/tsi.rs impl[Peekable<<Self as Method>::Output> for TSI]::peek pub
 //@sig pub fn peek(&self) -> (r: ValueType)
 	ensures self.ema22.value@ > 0real ==> r@ == self.ema12.value@ / self.ema22.value@,
@@ -275,6 +280,7 @@ impl Method for TSI {
 		tsi_parts(pre, x, post, out, mk(x@ - pre.last_value@), mk(rabs(x@ - pre.last_value@)), post.ema11.value, post.ema21.value)
 	}
 //@extract src/methods/tsi.rs impl[Method for TSI]::new
+	ensures (r is Ok) == (params.0 != 0 && params.1 != 0),
 //@end
 //@extract src/methods/tsi.rs impl[Method for TSI]::next
 //@end
@@ -339,5 +345,6 @@ pub proof fn tsi_const_step(pre: TSI, v: R, post: TSI, out: R)
 	ema_const_step(pre.ema21, am, post.ema21, b1);
 	ema_const_step(pre.ema22, b1, post.ema22, post.ema22.value);
 }
+//@export-end
 } // verus!
 fn main() {}
